@@ -176,7 +176,10 @@ def check(run):
     run.trusted = ['Coq 8.16.1 kernel + VM', 'Spec/XmlWF.v: transcription of XML 1.0 5th ed. productions [1]-[83] and the WFCs listed in its header (cross-validated against expat on every case of this run)',
                    'extraction (ExtrOcamlBasic only) + ocaml/specdomains/wf/wfdoc.ml', 'harness/src/domains/wfdoc.rs (from_raw verdict)', 'translator T2 for the lexical-rung lemmas',
                    'Model/Peg.v semantics of the nom combinators (prod correspondence)']
-    proved, _ = lib.proof_step(run, 'C02', ['T1', 'T2'])
+    if os.environ.get('VERIF_SEARCH_ONLY'):       # development aid: failing-input search without the proof step
+        run.notes.append('VERIF_SEARCH_ONLY set: proof step skipped')
+    else:
+        proved, _ = lib.proof_step(run, 'C02', ['T1', 'T2'])
     okr, mok, sok = lib.build_binaries(run, model_areas=[], spec_areas=['wf'])
     if not (okr and sok.get('wf')):
         return run.finish(level='proof', rule='(binaries did not build)')
